@@ -3,6 +3,7 @@ from __future__ import annotations
 
 import json
 
+import c09_reopen
 import core
 import treeops as T
 
@@ -125,7 +126,7 @@ def argument_forms():
 
 
 def run(ctx: core.Run):
-    ctx.prove(["PsdVerif.Props.C09"])
+    ctx.prove(["PsdVerif.Props.C09"] + c09_reopen.modules(ctx))
     ctx.trusted_base += T.TRUSTED
     ctx.assumptions += T.ASSUME
     ctx.model_coverage = T.MODEL_COVERAGE
@@ -215,6 +216,8 @@ def run(ctx: core.Run):
     ]
     if ctx.tier == "thorough":
         ctx.recheck(["PsdVerif.Props.C09"])
+    # save / reopen as a theorem (Props/C09Reopen.lean): its model against the code on the final worlds above
+    c09_reopen.run_block(ctx, chosen)
 
 
 def replay(ctx, data):
